@@ -89,3 +89,47 @@ KERNELS = [
       [(r"scalar_t\((\d+)\)", r"\1"), (r"stpmin\(\)", "stpmin")],
       [("stpmin", "Z")], "c07", ["C07"]),
 ]
+
+# ---- More-Thuente (morethuente.cpp): the five `return {true, stp}` tests in source order, ftest / gtest -----------
+_MT = "src/lsearchk/morethuente.cpp"
+_MTA = [(r"stpmax\(\)", "stpmax"), (r"stpmin\(\)", "stpmin"), (r"std::fabs\(g\)", "ag"), (r"scalar_t\((\d+)\)", r"\1")]
+_MTX = r"if \(([^{};]*?)\)\s*\{\s*return \{true, stp\};"
+
+KERNELS += [
+    K("src_mth_gtest", _MT, r"const auto gtest\s*=\s*(.*?);", [], [("ftol", "Z"), ("ginit", "Z")], "c07", ["C07"]),
+    K("src_mth_ftest", _MT, r"const auto ftest\s*=\s*(.*?);", [], [("finit", "Z"), ("stp", "Z"), ("gtest", "Z")],
+      "c07", ["C07"]),
+    K("src_mth_exit_rounding", _MT, _MTX, _MTA,
+      [("brackt", "bool"), ("stp", "Z"), ("stmin", "Z"), ("stmax", "Z")], "c07", ["C07"], pick=0),
+    K("src_mth_exit_collapsed", _MT, _MTX, _MTA,
+      [("brackt", "bool"), ("stmin", "Z"), ("stmax", "Z"), ("xtol", "Z")], "c07", ["C07"], pick=1),
+    K("src_mth_exit_stpmax", _MT, _MTX, _MTA,
+      [("stp", "Z"), ("stpmax", "Z"), ("f", "Z"), ("ftest", "Z"), ("g", "Z"), ("gtest", "Z")], "c07", ["C07"], pick=2),
+    K("src_mth_exit_stpmin", _MT, _MTX, _MTA,
+      [("stp", "Z"), ("stpmin", "Z"), ("f", "Z"), ("ftest", "Z"), ("g", "Z"), ("gtest", "Z")], "c07", ["C07"], pick=3),
+    K("src_mth_converged", _MT, _MTX, _MTA,
+      [("f", "Z"), ("ftest", "Z"), ("ag", "Z"), ("g", "Z"), ("gtol", "Z"), ("ginit", "Z")], "c07", ["C07"], pick=4),
+    # "no further progress -> stp = stx" inside the iteration
+    K("src_mth_noprogress", _MT, r"if \(([^{};]*?)\)\s*\{\s*stp = stx;", _MTA,
+      [("brackt", "bool"), ("stp", "Z"), ("stmin", "Z"), ("stmax", "Z"), ("xtol", "Z")], "c07", ["C07"]),
+]
+
+# ---- CG_DESCENT (cgdescent.cpp): interval_t::done and epsilon_k ---------------------------------------------------
+_CG = "src/lsearchk/cgdescent.cpp"
+_CGA = [(r"a\.f\b", "af"), (r"a\.t\b", "a_t"), (r"b\.g\b", "bg"), (r"b\.t\b", "b_t"), (r"state0\.fx\(\)", "f0"),
+        (r"c\.valid\(\)", "valid"), (r"\b(\d+)\.0\b", r"\1"),
+        (r"c\.has_armijo\(state0, descent, step_size, c1\)", "armijo"), (r"c\.has_wolfe\(state0, descent, c2\)", "wolfe"),
+        (r"c\.has_approx_armijo\(state0, epsilonk\)", "approx_armijo"),
+        (r"c\.has_approx_wolfe\(state0, descent, c1, c2\)", "approx_wolfe")]
+
+KERNELS += [
+    K("src_cg_epsilonk", _CG, r"lsearchk::cgdescent::gamma\"\)\.value<scalar_t>\(\),\s*(.*?)\};",
+      [(r"configurable\.parameter\(\"lsearchk::cgdescent::epsilon\"\)\.value<scalar_t>\(\)", "epsilon"),
+       (r"std::fabs\(state0\.fx\(\)\)", "af0")], [("epsilon", "Z"), ("af0", "Z")], "c07", ["C07"]),
+    K("src_cg_done_failed", _CG, r"assert\(a\.g < 0\.0\);\s*if \((.*?)\)\s*\{\s*return true;", _CGA,
+      [("bracketed", "bool"), ("af", "Z"), ("f0", "Z"), ("epsilonk", "Z"), ("bg", "Z"), ("valid", "bool")], "c07", ["C07"]),
+    K("src_cg_done_outside", _CG, r"return true;\s*\}\s*else if \((.*?)\)\s*\{\s*return false;", _CGA,
+      [("step_size", "Z"), ("a_t", "Z"), ("b_t", "Z")], "c07", ["C07"]),
+    K("src_cg_done_accept", _CG, r"return false;\s*\}\s*else\s*\{\s*return\s+(.*?);", _CGA,
+      [("armijo", "bool"), ("wolfe", "bool"), ("approx_armijo", "bool"), ("approx_wolfe", "bool")], "c07", ["C07"]),
+]
